@@ -64,6 +64,29 @@ def model_phase(c, tier):
     return extra, cases
 
 
+class Lines:
+    """Length, first and last lines of a trace that is not kept in memory."""
+
+    def __init__(self):
+        self.n, self.head, self.tail = 0, [], []
+
+    def push(self, l):
+        self.n += 1
+        if len(self.head) < 8:
+            self.head.append(l)
+        self.tail = (self.tail + [l])[-8:]
+
+    def __len__(self):
+        return self.n
+
+    def __getitem__(self, k):
+        if isinstance(k, slice):
+            if (k.start or 0) < 0:
+                return self.tail[k]
+            return self.head[k]
+        return self.tail[k] if k < 0 else self.head[k]
+
+
 def trace_phase(c, tier, extra_cases, corrupt=0):
     # thorough: events carry whole sample years of both expressions (up to 100 kB each): many small shards keep every TLC's
     # heap below 3 GB and at most 14 of them run at once
@@ -78,14 +101,30 @@ def trace_phase(c, tier, extra_cases, corrupt=0):
     if corrupt:
         args += ["--corrupt", corrupt]
     vlib.ohv(args, stdout_path=path, timeout=7200)
-    lines = open(path).read().splitlines()
-    res, mism, acc = vlib.validate_traces("Trace_Normalize", vlib.shard_lines(lines, shards, "%s_nz" % c.pid.lower()), heap="3g", max_par=14)
+    # the trace can be several GB at the thorough tier: it is streamed into the shards, never held in memory
+    import re
+    handles = [open(os.path.join(vlib.WORK, "%s_nz_%02d.ndjson" % (c.pid.lower(), i)), "w") for i in range(shards)]
+    lines = Lines()
+    with open(path) as f:
+        for l in f:
+            handles[lines.n % shards].write(l if l.endswith("\n") else l + "\n")
+            lines.push(l.rstrip("\n"))
+    for h in handles:
+        h.close()
+    files = [h.name for h in handles if os.path.getsize(h.name) > 0]
+    res, mism, acc = vlib.validate_traces("Trace_Normalize", files, heap="3g", max_par=14)
     if acc != len(lines):
         raise vlib.ToolError("Trace_Normalize consumed %d of %d events" % (acc, len(lines)))
+    # only the events named by a mismatch (and the first ones, for samples / self-tests) are parsed
+    wanted = {m["id"] for m in mism} | set(range(1, 12))
     by_id = {}
-    for l in lines:
-        e = json.loads(l)
-        by_id[e["id"]] = e
+    idre = re.compile(r'"id":(\d+)')
+    with open(path) as f:
+        for l in f:
+            m = idre.search(l[:400]) or idre.search(l)
+            if m and int(m.group(1)) in wanted:
+                e = json.loads(l)
+                by_id[e["id"]] = e
     verdicts, changed, windows = collections.Counter(), 0, 0
     for r in res:
         c.add_tlc(r)
